@@ -3,3 +3,5 @@ pub mod reader;
 pub mod out;
 pub mod pairs;
 pub mod fnt;
+pub mod modes;
+pub mod cli;
